@@ -53,19 +53,25 @@ Definition bind {A B} (x : res A) (f : A -> res B) : res B :=
 Inductive kind :=
 | KFrom | KInto | KUpdate                      (* fix the statement's target: not part of the shuffled calls *)
 | KSelect | KJoin | KWhere | KPrewhere | KGroupby | KHaving | KOrderby | KLimit | KOffset | KDistinct
-| KForUpdate | KWith | KForceIndex | KUseIndex | KSet | KColumns | KInsert.
+| KForUpdate | KWith | KForceIndex | KUseIndex | KSet | KColumns | KInsert
+(* dialect-specific clause calls: Vertica hint, MySQL modifier, ClickHouse final / sample / limit_by, PostgreSQL and
+   ClickHouse distinct_on *)
+| KHint | KModifier | KFinal | KSample | KLimitBy | KDistinctOn.
 
 Definition kind_eqb (a b : kind) : bool :=
   match a, b with
   | KFrom, KFrom | KInto, KInto | KUpdate, KUpdate | KSelect, KSelect | KJoin, KJoin | KWhere, KWhere
   | KPrewhere, KPrewhere | KGroupby, KGroupby | KHaving, KHaving | KOrderby, KOrderby | KLimit, KLimit
   | KOffset, KOffset | KDistinct, KDistinct | KForUpdate, KForUpdate | KWith, KWith
-  | KForceIndex, KForceIndex | KUseIndex, KUseIndex | KSet, KSet | KColumns, KColumns | KInsert, KInsert => true
+  | KForceIndex, KForceIndex | KUseIndex, KUseIndex | KSet, KSet | KColumns, KColumns | KInsert, KInsert
+  | KHint, KHint | KModifier, KModifier | KFinal, KFinal | KSample, KSample | KLimitBy, KLimitBy
+  | KDistinctOn, KDistinctOn => true
   | _, _ => false
   end.
 Definition all_kinds : list kind :=
   [KFrom; KInto; KUpdate; KSelect; KJoin; KWhere; KPrewhere; KGroupby; KHaving; KOrderby; KLimit; KOffset;
-   KDistinct; KForUpdate; KWith; KForceIndex; KUseIndex; KSet; KColumns; KInsert].
+   KDistinct; KForUpdate; KWith; KForceIndex; KUseIndex; KSet; KColumns; KInsert;
+   KHint; KModifier; KFinal; KSample; KLimitBy; KDistinctOn].
 (* the clause-adding kinds of the property *)
 Definition commuting (k : kind) : bool :=
   match k with KFrom | KInto | KUpdate => false | _ => true end.
@@ -123,73 +129,97 @@ Record qstate := mkq {
   q_select_into : bool;
   q_subquery_count : Z;
   q_foreign_table : bool;
-  q_mysql_rollup : bool
+  q_mysql_rollup : bool;
+  q_hint : option string;
+  q_modifiers : list string;
+  q_final : bool;
+  q_sample : option Z;
+  q_sample_offset : option Z;
+  q_limit_by : option (Z * Z * list term);
+  q_distinct_on : list term;
+  q_insert_or_replace : bool
 }.
 
 Definition set_from (v : list tbl) (s : qstate) : qstate :=
-  {| q_from := v; q_insert_table := q_insert_table s; q_update_table := q_update_table s; q_with := q_with s; q_selects := q_selects s; q_select_star := q_select_star s; q_select_star_tables := q_select_star_tables s; q_joins := q_joins s; q_wheres := q_wheres s; q_prewheres := q_prewheres s; q_havings := q_havings s; q_groupbys := q_groupbys s; q_orderbys := q_orderbys s; q_limit := q_limit s; q_offset := q_offset s; q_distinct := q_distinct s; q_for_update := q_for_update s; q_for_update_nowait := q_for_update_nowait s; q_for_update_skip_locked := q_for_update_skip_locked s; q_for_update_of := q_for_update_of s; q_force_indexes := q_force_indexes s; q_use_indexes := q_use_indexes s; q_updates := q_updates s; q_columns := q_columns s; q_values := q_values s; q_replace := q_replace s; q_select_into := q_select_into s; q_subquery_count := q_subquery_count s; q_foreign_table := q_foreign_table s; q_mysql_rollup := q_mysql_rollup s |}.
+  {| q_from := v; q_insert_table := q_insert_table s; q_update_table := q_update_table s; q_with := q_with s; q_selects := q_selects s; q_select_star := q_select_star s; q_select_star_tables := q_select_star_tables s; q_joins := q_joins s; q_wheres := q_wheres s; q_prewheres := q_prewheres s; q_havings := q_havings s; q_groupbys := q_groupbys s; q_orderbys := q_orderbys s; q_limit := q_limit s; q_offset := q_offset s; q_distinct := q_distinct s; q_for_update := q_for_update s; q_for_update_nowait := q_for_update_nowait s; q_for_update_skip_locked := q_for_update_skip_locked s; q_for_update_of := q_for_update_of s; q_force_indexes := q_force_indexes s; q_use_indexes := q_use_indexes s; q_updates := q_updates s; q_columns := q_columns s; q_values := q_values s; q_replace := q_replace s; q_select_into := q_select_into s; q_subquery_count := q_subquery_count s; q_foreign_table := q_foreign_table s; q_mysql_rollup := q_mysql_rollup s; q_hint := q_hint s; q_modifiers := q_modifiers s; q_final := q_final s; q_sample := q_sample s; q_sample_offset := q_sample_offset s; q_limit_by := q_limit_by s; q_distinct_on := q_distinct_on s; q_insert_or_replace := q_insert_or_replace s |}.
 Definition set_insert_table (v : option tbl) (s : qstate) : qstate :=
-  {| q_from := q_from s; q_insert_table := v; q_update_table := q_update_table s; q_with := q_with s; q_selects := q_selects s; q_select_star := q_select_star s; q_select_star_tables := q_select_star_tables s; q_joins := q_joins s; q_wheres := q_wheres s; q_prewheres := q_prewheres s; q_havings := q_havings s; q_groupbys := q_groupbys s; q_orderbys := q_orderbys s; q_limit := q_limit s; q_offset := q_offset s; q_distinct := q_distinct s; q_for_update := q_for_update s; q_for_update_nowait := q_for_update_nowait s; q_for_update_skip_locked := q_for_update_skip_locked s; q_for_update_of := q_for_update_of s; q_force_indexes := q_force_indexes s; q_use_indexes := q_use_indexes s; q_updates := q_updates s; q_columns := q_columns s; q_values := q_values s; q_replace := q_replace s; q_select_into := q_select_into s; q_subquery_count := q_subquery_count s; q_foreign_table := q_foreign_table s; q_mysql_rollup := q_mysql_rollup s |}.
+  {| q_from := q_from s; q_insert_table := v; q_update_table := q_update_table s; q_with := q_with s; q_selects := q_selects s; q_select_star := q_select_star s; q_select_star_tables := q_select_star_tables s; q_joins := q_joins s; q_wheres := q_wheres s; q_prewheres := q_prewheres s; q_havings := q_havings s; q_groupbys := q_groupbys s; q_orderbys := q_orderbys s; q_limit := q_limit s; q_offset := q_offset s; q_distinct := q_distinct s; q_for_update := q_for_update s; q_for_update_nowait := q_for_update_nowait s; q_for_update_skip_locked := q_for_update_skip_locked s; q_for_update_of := q_for_update_of s; q_force_indexes := q_force_indexes s; q_use_indexes := q_use_indexes s; q_updates := q_updates s; q_columns := q_columns s; q_values := q_values s; q_replace := q_replace s; q_select_into := q_select_into s; q_subquery_count := q_subquery_count s; q_foreign_table := q_foreign_table s; q_mysql_rollup := q_mysql_rollup s; q_hint := q_hint s; q_modifiers := q_modifiers s; q_final := q_final s; q_sample := q_sample s; q_sample_offset := q_sample_offset s; q_limit_by := q_limit_by s; q_distinct_on := q_distinct_on s; q_insert_or_replace := q_insert_or_replace s |}.
 Definition set_update_table (v : option tbl) (s : qstate) : qstate :=
-  {| q_from := q_from s; q_insert_table := q_insert_table s; q_update_table := v; q_with := q_with s; q_selects := q_selects s; q_select_star := q_select_star s; q_select_star_tables := q_select_star_tables s; q_joins := q_joins s; q_wheres := q_wheres s; q_prewheres := q_prewheres s; q_havings := q_havings s; q_groupbys := q_groupbys s; q_orderbys := q_orderbys s; q_limit := q_limit s; q_offset := q_offset s; q_distinct := q_distinct s; q_for_update := q_for_update s; q_for_update_nowait := q_for_update_nowait s; q_for_update_skip_locked := q_for_update_skip_locked s; q_for_update_of := q_for_update_of s; q_force_indexes := q_force_indexes s; q_use_indexes := q_use_indexes s; q_updates := q_updates s; q_columns := q_columns s; q_values := q_values s; q_replace := q_replace s; q_select_into := q_select_into s; q_subquery_count := q_subquery_count s; q_foreign_table := q_foreign_table s; q_mysql_rollup := q_mysql_rollup s |}.
+  {| q_from := q_from s; q_insert_table := q_insert_table s; q_update_table := v; q_with := q_with s; q_selects := q_selects s; q_select_star := q_select_star s; q_select_star_tables := q_select_star_tables s; q_joins := q_joins s; q_wheres := q_wheres s; q_prewheres := q_prewheres s; q_havings := q_havings s; q_groupbys := q_groupbys s; q_orderbys := q_orderbys s; q_limit := q_limit s; q_offset := q_offset s; q_distinct := q_distinct s; q_for_update := q_for_update s; q_for_update_nowait := q_for_update_nowait s; q_for_update_skip_locked := q_for_update_skip_locked s; q_for_update_of := q_for_update_of s; q_force_indexes := q_force_indexes s; q_use_indexes := q_use_indexes s; q_updates := q_updates s; q_columns := q_columns s; q_values := q_values s; q_replace := q_replace s; q_select_into := q_select_into s; q_subquery_count := q_subquery_count s; q_foreign_table := q_foreign_table s; q_mysql_rollup := q_mysql_rollup s; q_hint := q_hint s; q_modifiers := q_modifiers s; q_final := q_final s; q_sample := q_sample s; q_sample_offset := q_sample_offset s; q_limit_by := q_limit_by s; q_distinct_on := q_distinct_on s; q_insert_or_replace := q_insert_or_replace s |}.
 Definition set_with (v : list (string * term)) (s : qstate) : qstate :=
-  {| q_from := q_from s; q_insert_table := q_insert_table s; q_update_table := q_update_table s; q_with := v; q_selects := q_selects s; q_select_star := q_select_star s; q_select_star_tables := q_select_star_tables s; q_joins := q_joins s; q_wheres := q_wheres s; q_prewheres := q_prewheres s; q_havings := q_havings s; q_groupbys := q_groupbys s; q_orderbys := q_orderbys s; q_limit := q_limit s; q_offset := q_offset s; q_distinct := q_distinct s; q_for_update := q_for_update s; q_for_update_nowait := q_for_update_nowait s; q_for_update_skip_locked := q_for_update_skip_locked s; q_for_update_of := q_for_update_of s; q_force_indexes := q_force_indexes s; q_use_indexes := q_use_indexes s; q_updates := q_updates s; q_columns := q_columns s; q_values := q_values s; q_replace := q_replace s; q_select_into := q_select_into s; q_subquery_count := q_subquery_count s; q_foreign_table := q_foreign_table s; q_mysql_rollup := q_mysql_rollup s |}.
+  {| q_from := q_from s; q_insert_table := q_insert_table s; q_update_table := q_update_table s; q_with := v; q_selects := q_selects s; q_select_star := q_select_star s; q_select_star_tables := q_select_star_tables s; q_joins := q_joins s; q_wheres := q_wheres s; q_prewheres := q_prewheres s; q_havings := q_havings s; q_groupbys := q_groupbys s; q_orderbys := q_orderbys s; q_limit := q_limit s; q_offset := q_offset s; q_distinct := q_distinct s; q_for_update := q_for_update s; q_for_update_nowait := q_for_update_nowait s; q_for_update_skip_locked := q_for_update_skip_locked s; q_for_update_of := q_for_update_of s; q_force_indexes := q_force_indexes s; q_use_indexes := q_use_indexes s; q_updates := q_updates s; q_columns := q_columns s; q_values := q_values s; q_replace := q_replace s; q_select_into := q_select_into s; q_subquery_count := q_subquery_count s; q_foreign_table := q_foreign_table s; q_mysql_rollup := q_mysql_rollup s; q_hint := q_hint s; q_modifiers := q_modifiers s; q_final := q_final s; q_sample := q_sample s; q_sample_offset := q_sample_offset s; q_limit_by := q_limit_by s; q_distinct_on := q_distinct_on s; q_insert_or_replace := q_insert_or_replace s |}.
 Definition set_selects (v : list term) (s : qstate) : qstate :=
-  {| q_from := q_from s; q_insert_table := q_insert_table s; q_update_table := q_update_table s; q_with := q_with s; q_selects := v; q_select_star := q_select_star s; q_select_star_tables := q_select_star_tables s; q_joins := q_joins s; q_wheres := q_wheres s; q_prewheres := q_prewheres s; q_havings := q_havings s; q_groupbys := q_groupbys s; q_orderbys := q_orderbys s; q_limit := q_limit s; q_offset := q_offset s; q_distinct := q_distinct s; q_for_update := q_for_update s; q_for_update_nowait := q_for_update_nowait s; q_for_update_skip_locked := q_for_update_skip_locked s; q_for_update_of := q_for_update_of s; q_force_indexes := q_force_indexes s; q_use_indexes := q_use_indexes s; q_updates := q_updates s; q_columns := q_columns s; q_values := q_values s; q_replace := q_replace s; q_select_into := q_select_into s; q_subquery_count := q_subquery_count s; q_foreign_table := q_foreign_table s; q_mysql_rollup := q_mysql_rollup s |}.
+  {| q_from := q_from s; q_insert_table := q_insert_table s; q_update_table := q_update_table s; q_with := q_with s; q_selects := v; q_select_star := q_select_star s; q_select_star_tables := q_select_star_tables s; q_joins := q_joins s; q_wheres := q_wheres s; q_prewheres := q_prewheres s; q_havings := q_havings s; q_groupbys := q_groupbys s; q_orderbys := q_orderbys s; q_limit := q_limit s; q_offset := q_offset s; q_distinct := q_distinct s; q_for_update := q_for_update s; q_for_update_nowait := q_for_update_nowait s; q_for_update_skip_locked := q_for_update_skip_locked s; q_for_update_of := q_for_update_of s; q_force_indexes := q_force_indexes s; q_use_indexes := q_use_indexes s; q_updates := q_updates s; q_columns := q_columns s; q_values := q_values s; q_replace := q_replace s; q_select_into := q_select_into s; q_subquery_count := q_subquery_count s; q_foreign_table := q_foreign_table s; q_mysql_rollup := q_mysql_rollup s; q_hint := q_hint s; q_modifiers := q_modifiers s; q_final := q_final s; q_sample := q_sample s; q_sample_offset := q_sample_offset s; q_limit_by := q_limit_by s; q_distinct_on := q_distinct_on s; q_insert_or_replace := q_insert_or_replace s |}.
 Definition set_select_star (v : bool) (s : qstate) : qstate :=
-  {| q_from := q_from s; q_insert_table := q_insert_table s; q_update_table := q_update_table s; q_with := q_with s; q_selects := q_selects s; q_select_star := v; q_select_star_tables := q_select_star_tables s; q_joins := q_joins s; q_wheres := q_wheres s; q_prewheres := q_prewheres s; q_havings := q_havings s; q_groupbys := q_groupbys s; q_orderbys := q_orderbys s; q_limit := q_limit s; q_offset := q_offset s; q_distinct := q_distinct s; q_for_update := q_for_update s; q_for_update_nowait := q_for_update_nowait s; q_for_update_skip_locked := q_for_update_skip_locked s; q_for_update_of := q_for_update_of s; q_force_indexes := q_force_indexes s; q_use_indexes := q_use_indexes s; q_updates := q_updates s; q_columns := q_columns s; q_values := q_values s; q_replace := q_replace s; q_select_into := q_select_into s; q_subquery_count := q_subquery_count s; q_foreign_table := q_foreign_table s; q_mysql_rollup := q_mysql_rollup s |}.
+  {| q_from := q_from s; q_insert_table := q_insert_table s; q_update_table := q_update_table s; q_with := q_with s; q_selects := q_selects s; q_select_star := v; q_select_star_tables := q_select_star_tables s; q_joins := q_joins s; q_wheres := q_wheres s; q_prewheres := q_prewheres s; q_havings := q_havings s; q_groupbys := q_groupbys s; q_orderbys := q_orderbys s; q_limit := q_limit s; q_offset := q_offset s; q_distinct := q_distinct s; q_for_update := q_for_update s; q_for_update_nowait := q_for_update_nowait s; q_for_update_skip_locked := q_for_update_skip_locked s; q_for_update_of := q_for_update_of s; q_force_indexes := q_force_indexes s; q_use_indexes := q_use_indexes s; q_updates := q_updates s; q_columns := q_columns s; q_values := q_values s; q_replace := q_replace s; q_select_into := q_select_into s; q_subquery_count := q_subquery_count s; q_foreign_table := q_foreign_table s; q_mysql_rollup := q_mysql_rollup s; q_hint := q_hint s; q_modifiers := q_modifiers s; q_final := q_final s; q_sample := q_sample s; q_sample_offset := q_sample_offset s; q_limit_by := q_limit_by s; q_distinct_on := q_distinct_on s; q_insert_or_replace := q_insert_or_replace s |}.
 Definition set_select_star_tables (v : list (option tbl)) (s : qstate) : qstate :=
-  {| q_from := q_from s; q_insert_table := q_insert_table s; q_update_table := q_update_table s; q_with := q_with s; q_selects := q_selects s; q_select_star := q_select_star s; q_select_star_tables := v; q_joins := q_joins s; q_wheres := q_wheres s; q_prewheres := q_prewheres s; q_havings := q_havings s; q_groupbys := q_groupbys s; q_orderbys := q_orderbys s; q_limit := q_limit s; q_offset := q_offset s; q_distinct := q_distinct s; q_for_update := q_for_update s; q_for_update_nowait := q_for_update_nowait s; q_for_update_skip_locked := q_for_update_skip_locked s; q_for_update_of := q_for_update_of s; q_force_indexes := q_force_indexes s; q_use_indexes := q_use_indexes s; q_updates := q_updates s; q_columns := q_columns s; q_values := q_values s; q_replace := q_replace s; q_select_into := q_select_into s; q_subquery_count := q_subquery_count s; q_foreign_table := q_foreign_table s; q_mysql_rollup := q_mysql_rollup s |}.
+  {| q_from := q_from s; q_insert_table := q_insert_table s; q_update_table := q_update_table s; q_with := q_with s; q_selects := q_selects s; q_select_star := q_select_star s; q_select_star_tables := v; q_joins := q_joins s; q_wheres := q_wheres s; q_prewheres := q_prewheres s; q_havings := q_havings s; q_groupbys := q_groupbys s; q_orderbys := q_orderbys s; q_limit := q_limit s; q_offset := q_offset s; q_distinct := q_distinct s; q_for_update := q_for_update s; q_for_update_nowait := q_for_update_nowait s; q_for_update_skip_locked := q_for_update_skip_locked s; q_for_update_of := q_for_update_of s; q_force_indexes := q_force_indexes s; q_use_indexes := q_use_indexes s; q_updates := q_updates s; q_columns := q_columns s; q_values := q_values s; q_replace := q_replace s; q_select_into := q_select_into s; q_subquery_count := q_subquery_count s; q_foreign_table := q_foreign_table s; q_mysql_rollup := q_mysql_rollup s; q_hint := q_hint s; q_modifiers := q_modifiers s; q_final := q_final s; q_sample := q_sample s; q_sample_offset := q_sample_offset s; q_limit_by := q_limit_by s; q_distinct_on := q_distinct_on s; q_insert_or_replace := q_insert_or_replace s |}.
 Definition set_joins (v : list join) (s : qstate) : qstate :=
-  {| q_from := q_from s; q_insert_table := q_insert_table s; q_update_table := q_update_table s; q_with := q_with s; q_selects := q_selects s; q_select_star := q_select_star s; q_select_star_tables := q_select_star_tables s; q_joins := v; q_wheres := q_wheres s; q_prewheres := q_prewheres s; q_havings := q_havings s; q_groupbys := q_groupbys s; q_orderbys := q_orderbys s; q_limit := q_limit s; q_offset := q_offset s; q_distinct := q_distinct s; q_for_update := q_for_update s; q_for_update_nowait := q_for_update_nowait s; q_for_update_skip_locked := q_for_update_skip_locked s; q_for_update_of := q_for_update_of s; q_force_indexes := q_force_indexes s; q_use_indexes := q_use_indexes s; q_updates := q_updates s; q_columns := q_columns s; q_values := q_values s; q_replace := q_replace s; q_select_into := q_select_into s; q_subquery_count := q_subquery_count s; q_foreign_table := q_foreign_table s; q_mysql_rollup := q_mysql_rollup s |}.
+  {| q_from := q_from s; q_insert_table := q_insert_table s; q_update_table := q_update_table s; q_with := q_with s; q_selects := q_selects s; q_select_star := q_select_star s; q_select_star_tables := q_select_star_tables s; q_joins := v; q_wheres := q_wheres s; q_prewheres := q_prewheres s; q_havings := q_havings s; q_groupbys := q_groupbys s; q_orderbys := q_orderbys s; q_limit := q_limit s; q_offset := q_offset s; q_distinct := q_distinct s; q_for_update := q_for_update s; q_for_update_nowait := q_for_update_nowait s; q_for_update_skip_locked := q_for_update_skip_locked s; q_for_update_of := q_for_update_of s; q_force_indexes := q_force_indexes s; q_use_indexes := q_use_indexes s; q_updates := q_updates s; q_columns := q_columns s; q_values := q_values s; q_replace := q_replace s; q_select_into := q_select_into s; q_subquery_count := q_subquery_count s; q_foreign_table := q_foreign_table s; q_mysql_rollup := q_mysql_rollup s; q_hint := q_hint s; q_modifiers := q_modifiers s; q_final := q_final s; q_sample := q_sample s; q_sample_offset := q_sample_offset s; q_limit_by := q_limit_by s; q_distinct_on := q_distinct_on s; q_insert_or_replace := q_insert_or_replace s |}.
 Definition set_wheres (v : option term) (s : qstate) : qstate :=
-  {| q_from := q_from s; q_insert_table := q_insert_table s; q_update_table := q_update_table s; q_with := q_with s; q_selects := q_selects s; q_select_star := q_select_star s; q_select_star_tables := q_select_star_tables s; q_joins := q_joins s; q_wheres := v; q_prewheres := q_prewheres s; q_havings := q_havings s; q_groupbys := q_groupbys s; q_orderbys := q_orderbys s; q_limit := q_limit s; q_offset := q_offset s; q_distinct := q_distinct s; q_for_update := q_for_update s; q_for_update_nowait := q_for_update_nowait s; q_for_update_skip_locked := q_for_update_skip_locked s; q_for_update_of := q_for_update_of s; q_force_indexes := q_force_indexes s; q_use_indexes := q_use_indexes s; q_updates := q_updates s; q_columns := q_columns s; q_values := q_values s; q_replace := q_replace s; q_select_into := q_select_into s; q_subquery_count := q_subquery_count s; q_foreign_table := q_foreign_table s; q_mysql_rollup := q_mysql_rollup s |}.
+  {| q_from := q_from s; q_insert_table := q_insert_table s; q_update_table := q_update_table s; q_with := q_with s; q_selects := q_selects s; q_select_star := q_select_star s; q_select_star_tables := q_select_star_tables s; q_joins := q_joins s; q_wheres := v; q_prewheres := q_prewheres s; q_havings := q_havings s; q_groupbys := q_groupbys s; q_orderbys := q_orderbys s; q_limit := q_limit s; q_offset := q_offset s; q_distinct := q_distinct s; q_for_update := q_for_update s; q_for_update_nowait := q_for_update_nowait s; q_for_update_skip_locked := q_for_update_skip_locked s; q_for_update_of := q_for_update_of s; q_force_indexes := q_force_indexes s; q_use_indexes := q_use_indexes s; q_updates := q_updates s; q_columns := q_columns s; q_values := q_values s; q_replace := q_replace s; q_select_into := q_select_into s; q_subquery_count := q_subquery_count s; q_foreign_table := q_foreign_table s; q_mysql_rollup := q_mysql_rollup s; q_hint := q_hint s; q_modifiers := q_modifiers s; q_final := q_final s; q_sample := q_sample s; q_sample_offset := q_sample_offset s; q_limit_by := q_limit_by s; q_distinct_on := q_distinct_on s; q_insert_or_replace := q_insert_or_replace s |}.
 Definition set_prewheres (v : option term) (s : qstate) : qstate :=
-  {| q_from := q_from s; q_insert_table := q_insert_table s; q_update_table := q_update_table s; q_with := q_with s; q_selects := q_selects s; q_select_star := q_select_star s; q_select_star_tables := q_select_star_tables s; q_joins := q_joins s; q_wheres := q_wheres s; q_prewheres := v; q_havings := q_havings s; q_groupbys := q_groupbys s; q_orderbys := q_orderbys s; q_limit := q_limit s; q_offset := q_offset s; q_distinct := q_distinct s; q_for_update := q_for_update s; q_for_update_nowait := q_for_update_nowait s; q_for_update_skip_locked := q_for_update_skip_locked s; q_for_update_of := q_for_update_of s; q_force_indexes := q_force_indexes s; q_use_indexes := q_use_indexes s; q_updates := q_updates s; q_columns := q_columns s; q_values := q_values s; q_replace := q_replace s; q_select_into := q_select_into s; q_subquery_count := q_subquery_count s; q_foreign_table := q_foreign_table s; q_mysql_rollup := q_mysql_rollup s |}.
+  {| q_from := q_from s; q_insert_table := q_insert_table s; q_update_table := q_update_table s; q_with := q_with s; q_selects := q_selects s; q_select_star := q_select_star s; q_select_star_tables := q_select_star_tables s; q_joins := q_joins s; q_wheres := q_wheres s; q_prewheres := v; q_havings := q_havings s; q_groupbys := q_groupbys s; q_orderbys := q_orderbys s; q_limit := q_limit s; q_offset := q_offset s; q_distinct := q_distinct s; q_for_update := q_for_update s; q_for_update_nowait := q_for_update_nowait s; q_for_update_skip_locked := q_for_update_skip_locked s; q_for_update_of := q_for_update_of s; q_force_indexes := q_force_indexes s; q_use_indexes := q_use_indexes s; q_updates := q_updates s; q_columns := q_columns s; q_values := q_values s; q_replace := q_replace s; q_select_into := q_select_into s; q_subquery_count := q_subquery_count s; q_foreign_table := q_foreign_table s; q_mysql_rollup := q_mysql_rollup s; q_hint := q_hint s; q_modifiers := q_modifiers s; q_final := q_final s; q_sample := q_sample s; q_sample_offset := q_sample_offset s; q_limit_by := q_limit_by s; q_distinct_on := q_distinct_on s; q_insert_or_replace := q_insert_or_replace s |}.
 Definition set_havings (v : option term) (s : qstate) : qstate :=
-  {| q_from := q_from s; q_insert_table := q_insert_table s; q_update_table := q_update_table s; q_with := q_with s; q_selects := q_selects s; q_select_star := q_select_star s; q_select_star_tables := q_select_star_tables s; q_joins := q_joins s; q_wheres := q_wheres s; q_prewheres := q_prewheres s; q_havings := v; q_groupbys := q_groupbys s; q_orderbys := q_orderbys s; q_limit := q_limit s; q_offset := q_offset s; q_distinct := q_distinct s; q_for_update := q_for_update s; q_for_update_nowait := q_for_update_nowait s; q_for_update_skip_locked := q_for_update_skip_locked s; q_for_update_of := q_for_update_of s; q_force_indexes := q_force_indexes s; q_use_indexes := q_use_indexes s; q_updates := q_updates s; q_columns := q_columns s; q_values := q_values s; q_replace := q_replace s; q_select_into := q_select_into s; q_subquery_count := q_subquery_count s; q_foreign_table := q_foreign_table s; q_mysql_rollup := q_mysql_rollup s |}.
+  {| q_from := q_from s; q_insert_table := q_insert_table s; q_update_table := q_update_table s; q_with := q_with s; q_selects := q_selects s; q_select_star := q_select_star s; q_select_star_tables := q_select_star_tables s; q_joins := q_joins s; q_wheres := q_wheres s; q_prewheres := q_prewheres s; q_havings := v; q_groupbys := q_groupbys s; q_orderbys := q_orderbys s; q_limit := q_limit s; q_offset := q_offset s; q_distinct := q_distinct s; q_for_update := q_for_update s; q_for_update_nowait := q_for_update_nowait s; q_for_update_skip_locked := q_for_update_skip_locked s; q_for_update_of := q_for_update_of s; q_force_indexes := q_force_indexes s; q_use_indexes := q_use_indexes s; q_updates := q_updates s; q_columns := q_columns s; q_values := q_values s; q_replace := q_replace s; q_select_into := q_select_into s; q_subquery_count := q_subquery_count s; q_foreign_table := q_foreign_table s; q_mysql_rollup := q_mysql_rollup s; q_hint := q_hint s; q_modifiers := q_modifiers s; q_final := q_final s; q_sample := q_sample s; q_sample_offset := q_sample_offset s; q_limit_by := q_limit_by s; q_distinct_on := q_distinct_on s; q_insert_or_replace := q_insert_or_replace s |}.
 Definition set_groupbys (v : list term) (s : qstate) : qstate :=
-  {| q_from := q_from s; q_insert_table := q_insert_table s; q_update_table := q_update_table s; q_with := q_with s; q_selects := q_selects s; q_select_star := q_select_star s; q_select_star_tables := q_select_star_tables s; q_joins := q_joins s; q_wheres := q_wheres s; q_prewheres := q_prewheres s; q_havings := q_havings s; q_groupbys := v; q_orderbys := q_orderbys s; q_limit := q_limit s; q_offset := q_offset s; q_distinct := q_distinct s; q_for_update := q_for_update s; q_for_update_nowait := q_for_update_nowait s; q_for_update_skip_locked := q_for_update_skip_locked s; q_for_update_of := q_for_update_of s; q_force_indexes := q_force_indexes s; q_use_indexes := q_use_indexes s; q_updates := q_updates s; q_columns := q_columns s; q_values := q_values s; q_replace := q_replace s; q_select_into := q_select_into s; q_subquery_count := q_subquery_count s; q_foreign_table := q_foreign_table s; q_mysql_rollup := q_mysql_rollup s |}.
+  {| q_from := q_from s; q_insert_table := q_insert_table s; q_update_table := q_update_table s; q_with := q_with s; q_selects := q_selects s; q_select_star := q_select_star s; q_select_star_tables := q_select_star_tables s; q_joins := q_joins s; q_wheres := q_wheres s; q_prewheres := q_prewheres s; q_havings := q_havings s; q_groupbys := v; q_orderbys := q_orderbys s; q_limit := q_limit s; q_offset := q_offset s; q_distinct := q_distinct s; q_for_update := q_for_update s; q_for_update_nowait := q_for_update_nowait s; q_for_update_skip_locked := q_for_update_skip_locked s; q_for_update_of := q_for_update_of s; q_force_indexes := q_force_indexes s; q_use_indexes := q_use_indexes s; q_updates := q_updates s; q_columns := q_columns s; q_values := q_values s; q_replace := q_replace s; q_select_into := q_select_into s; q_subquery_count := q_subquery_count s; q_foreign_table := q_foreign_table s; q_mysql_rollup := q_mysql_rollup s; q_hint := q_hint s; q_modifiers := q_modifiers s; q_final := q_final s; q_sample := q_sample s; q_sample_offset := q_sample_offset s; q_limit_by := q_limit_by s; q_distinct_on := q_distinct_on s; q_insert_or_replace := q_insert_or_replace s |}.
 Definition set_orderbys (v : list (term * option string)) (s : qstate) : qstate :=
-  {| q_from := q_from s; q_insert_table := q_insert_table s; q_update_table := q_update_table s; q_with := q_with s; q_selects := q_selects s; q_select_star := q_select_star s; q_select_star_tables := q_select_star_tables s; q_joins := q_joins s; q_wheres := q_wheres s; q_prewheres := q_prewheres s; q_havings := q_havings s; q_groupbys := q_groupbys s; q_orderbys := v; q_limit := q_limit s; q_offset := q_offset s; q_distinct := q_distinct s; q_for_update := q_for_update s; q_for_update_nowait := q_for_update_nowait s; q_for_update_skip_locked := q_for_update_skip_locked s; q_for_update_of := q_for_update_of s; q_force_indexes := q_force_indexes s; q_use_indexes := q_use_indexes s; q_updates := q_updates s; q_columns := q_columns s; q_values := q_values s; q_replace := q_replace s; q_select_into := q_select_into s; q_subquery_count := q_subquery_count s; q_foreign_table := q_foreign_table s; q_mysql_rollup := q_mysql_rollup s |}.
+  {| q_from := q_from s; q_insert_table := q_insert_table s; q_update_table := q_update_table s; q_with := q_with s; q_selects := q_selects s; q_select_star := q_select_star s; q_select_star_tables := q_select_star_tables s; q_joins := q_joins s; q_wheres := q_wheres s; q_prewheres := q_prewheres s; q_havings := q_havings s; q_groupbys := q_groupbys s; q_orderbys := v; q_limit := q_limit s; q_offset := q_offset s; q_distinct := q_distinct s; q_for_update := q_for_update s; q_for_update_nowait := q_for_update_nowait s; q_for_update_skip_locked := q_for_update_skip_locked s; q_for_update_of := q_for_update_of s; q_force_indexes := q_force_indexes s; q_use_indexes := q_use_indexes s; q_updates := q_updates s; q_columns := q_columns s; q_values := q_values s; q_replace := q_replace s; q_select_into := q_select_into s; q_subquery_count := q_subquery_count s; q_foreign_table := q_foreign_table s; q_mysql_rollup := q_mysql_rollup s; q_hint := q_hint s; q_modifiers := q_modifiers s; q_final := q_final s; q_sample := q_sample s; q_sample_offset := q_sample_offset s; q_limit_by := q_limit_by s; q_distinct_on := q_distinct_on s; q_insert_or_replace := q_insert_or_replace s |}.
 Definition set_limit (v : option Z) (s : qstate) : qstate :=
-  {| q_from := q_from s; q_insert_table := q_insert_table s; q_update_table := q_update_table s; q_with := q_with s; q_selects := q_selects s; q_select_star := q_select_star s; q_select_star_tables := q_select_star_tables s; q_joins := q_joins s; q_wheres := q_wheres s; q_prewheres := q_prewheres s; q_havings := q_havings s; q_groupbys := q_groupbys s; q_orderbys := q_orderbys s; q_limit := v; q_offset := q_offset s; q_distinct := q_distinct s; q_for_update := q_for_update s; q_for_update_nowait := q_for_update_nowait s; q_for_update_skip_locked := q_for_update_skip_locked s; q_for_update_of := q_for_update_of s; q_force_indexes := q_force_indexes s; q_use_indexes := q_use_indexes s; q_updates := q_updates s; q_columns := q_columns s; q_values := q_values s; q_replace := q_replace s; q_select_into := q_select_into s; q_subquery_count := q_subquery_count s; q_foreign_table := q_foreign_table s; q_mysql_rollup := q_mysql_rollup s |}.
+  {| q_from := q_from s; q_insert_table := q_insert_table s; q_update_table := q_update_table s; q_with := q_with s; q_selects := q_selects s; q_select_star := q_select_star s; q_select_star_tables := q_select_star_tables s; q_joins := q_joins s; q_wheres := q_wheres s; q_prewheres := q_prewheres s; q_havings := q_havings s; q_groupbys := q_groupbys s; q_orderbys := q_orderbys s; q_limit := v; q_offset := q_offset s; q_distinct := q_distinct s; q_for_update := q_for_update s; q_for_update_nowait := q_for_update_nowait s; q_for_update_skip_locked := q_for_update_skip_locked s; q_for_update_of := q_for_update_of s; q_force_indexes := q_force_indexes s; q_use_indexes := q_use_indexes s; q_updates := q_updates s; q_columns := q_columns s; q_values := q_values s; q_replace := q_replace s; q_select_into := q_select_into s; q_subquery_count := q_subquery_count s; q_foreign_table := q_foreign_table s; q_mysql_rollup := q_mysql_rollup s; q_hint := q_hint s; q_modifiers := q_modifiers s; q_final := q_final s; q_sample := q_sample s; q_sample_offset := q_sample_offset s; q_limit_by := q_limit_by s; q_distinct_on := q_distinct_on s; q_insert_or_replace := q_insert_or_replace s |}.
 Definition set_offset (v : option Z) (s : qstate) : qstate :=
-  {| q_from := q_from s; q_insert_table := q_insert_table s; q_update_table := q_update_table s; q_with := q_with s; q_selects := q_selects s; q_select_star := q_select_star s; q_select_star_tables := q_select_star_tables s; q_joins := q_joins s; q_wheres := q_wheres s; q_prewheres := q_prewheres s; q_havings := q_havings s; q_groupbys := q_groupbys s; q_orderbys := q_orderbys s; q_limit := q_limit s; q_offset := v; q_distinct := q_distinct s; q_for_update := q_for_update s; q_for_update_nowait := q_for_update_nowait s; q_for_update_skip_locked := q_for_update_skip_locked s; q_for_update_of := q_for_update_of s; q_force_indexes := q_force_indexes s; q_use_indexes := q_use_indexes s; q_updates := q_updates s; q_columns := q_columns s; q_values := q_values s; q_replace := q_replace s; q_select_into := q_select_into s; q_subquery_count := q_subquery_count s; q_foreign_table := q_foreign_table s; q_mysql_rollup := q_mysql_rollup s |}.
+  {| q_from := q_from s; q_insert_table := q_insert_table s; q_update_table := q_update_table s; q_with := q_with s; q_selects := q_selects s; q_select_star := q_select_star s; q_select_star_tables := q_select_star_tables s; q_joins := q_joins s; q_wheres := q_wheres s; q_prewheres := q_prewheres s; q_havings := q_havings s; q_groupbys := q_groupbys s; q_orderbys := q_orderbys s; q_limit := q_limit s; q_offset := v; q_distinct := q_distinct s; q_for_update := q_for_update s; q_for_update_nowait := q_for_update_nowait s; q_for_update_skip_locked := q_for_update_skip_locked s; q_for_update_of := q_for_update_of s; q_force_indexes := q_force_indexes s; q_use_indexes := q_use_indexes s; q_updates := q_updates s; q_columns := q_columns s; q_values := q_values s; q_replace := q_replace s; q_select_into := q_select_into s; q_subquery_count := q_subquery_count s; q_foreign_table := q_foreign_table s; q_mysql_rollup := q_mysql_rollup s; q_hint := q_hint s; q_modifiers := q_modifiers s; q_final := q_final s; q_sample := q_sample s; q_sample_offset := q_sample_offset s; q_limit_by := q_limit_by s; q_distinct_on := q_distinct_on s; q_insert_or_replace := q_insert_or_replace s |}.
 Definition set_distinct (v : bool) (s : qstate) : qstate :=
-  {| q_from := q_from s; q_insert_table := q_insert_table s; q_update_table := q_update_table s; q_with := q_with s; q_selects := q_selects s; q_select_star := q_select_star s; q_select_star_tables := q_select_star_tables s; q_joins := q_joins s; q_wheres := q_wheres s; q_prewheres := q_prewheres s; q_havings := q_havings s; q_groupbys := q_groupbys s; q_orderbys := q_orderbys s; q_limit := q_limit s; q_offset := q_offset s; q_distinct := v; q_for_update := q_for_update s; q_for_update_nowait := q_for_update_nowait s; q_for_update_skip_locked := q_for_update_skip_locked s; q_for_update_of := q_for_update_of s; q_force_indexes := q_force_indexes s; q_use_indexes := q_use_indexes s; q_updates := q_updates s; q_columns := q_columns s; q_values := q_values s; q_replace := q_replace s; q_select_into := q_select_into s; q_subquery_count := q_subquery_count s; q_foreign_table := q_foreign_table s; q_mysql_rollup := q_mysql_rollup s |}.
+  {| q_from := q_from s; q_insert_table := q_insert_table s; q_update_table := q_update_table s; q_with := q_with s; q_selects := q_selects s; q_select_star := q_select_star s; q_select_star_tables := q_select_star_tables s; q_joins := q_joins s; q_wheres := q_wheres s; q_prewheres := q_prewheres s; q_havings := q_havings s; q_groupbys := q_groupbys s; q_orderbys := q_orderbys s; q_limit := q_limit s; q_offset := q_offset s; q_distinct := v; q_for_update := q_for_update s; q_for_update_nowait := q_for_update_nowait s; q_for_update_skip_locked := q_for_update_skip_locked s; q_for_update_of := q_for_update_of s; q_force_indexes := q_force_indexes s; q_use_indexes := q_use_indexes s; q_updates := q_updates s; q_columns := q_columns s; q_values := q_values s; q_replace := q_replace s; q_select_into := q_select_into s; q_subquery_count := q_subquery_count s; q_foreign_table := q_foreign_table s; q_mysql_rollup := q_mysql_rollup s; q_hint := q_hint s; q_modifiers := q_modifiers s; q_final := q_final s; q_sample := q_sample s; q_sample_offset := q_sample_offset s; q_limit_by := q_limit_by s; q_distinct_on := q_distinct_on s; q_insert_or_replace := q_insert_or_replace s |}.
 Definition set_for_update (v : bool) (s : qstate) : qstate :=
-  {| q_from := q_from s; q_insert_table := q_insert_table s; q_update_table := q_update_table s; q_with := q_with s; q_selects := q_selects s; q_select_star := q_select_star s; q_select_star_tables := q_select_star_tables s; q_joins := q_joins s; q_wheres := q_wheres s; q_prewheres := q_prewheres s; q_havings := q_havings s; q_groupbys := q_groupbys s; q_orderbys := q_orderbys s; q_limit := q_limit s; q_offset := q_offset s; q_distinct := q_distinct s; q_for_update := v; q_for_update_nowait := q_for_update_nowait s; q_for_update_skip_locked := q_for_update_skip_locked s; q_for_update_of := q_for_update_of s; q_force_indexes := q_force_indexes s; q_use_indexes := q_use_indexes s; q_updates := q_updates s; q_columns := q_columns s; q_values := q_values s; q_replace := q_replace s; q_select_into := q_select_into s; q_subquery_count := q_subquery_count s; q_foreign_table := q_foreign_table s; q_mysql_rollup := q_mysql_rollup s |}.
+  {| q_from := q_from s; q_insert_table := q_insert_table s; q_update_table := q_update_table s; q_with := q_with s; q_selects := q_selects s; q_select_star := q_select_star s; q_select_star_tables := q_select_star_tables s; q_joins := q_joins s; q_wheres := q_wheres s; q_prewheres := q_prewheres s; q_havings := q_havings s; q_groupbys := q_groupbys s; q_orderbys := q_orderbys s; q_limit := q_limit s; q_offset := q_offset s; q_distinct := q_distinct s; q_for_update := v; q_for_update_nowait := q_for_update_nowait s; q_for_update_skip_locked := q_for_update_skip_locked s; q_for_update_of := q_for_update_of s; q_force_indexes := q_force_indexes s; q_use_indexes := q_use_indexes s; q_updates := q_updates s; q_columns := q_columns s; q_values := q_values s; q_replace := q_replace s; q_select_into := q_select_into s; q_subquery_count := q_subquery_count s; q_foreign_table := q_foreign_table s; q_mysql_rollup := q_mysql_rollup s; q_hint := q_hint s; q_modifiers := q_modifiers s; q_final := q_final s; q_sample := q_sample s; q_sample_offset := q_sample_offset s; q_limit_by := q_limit_by s; q_distinct_on := q_distinct_on s; q_insert_or_replace := q_insert_or_replace s |}.
 Definition set_for_update_nowait (v : bool) (s : qstate) : qstate :=
-  {| q_from := q_from s; q_insert_table := q_insert_table s; q_update_table := q_update_table s; q_with := q_with s; q_selects := q_selects s; q_select_star := q_select_star s; q_select_star_tables := q_select_star_tables s; q_joins := q_joins s; q_wheres := q_wheres s; q_prewheres := q_prewheres s; q_havings := q_havings s; q_groupbys := q_groupbys s; q_orderbys := q_orderbys s; q_limit := q_limit s; q_offset := q_offset s; q_distinct := q_distinct s; q_for_update := q_for_update s; q_for_update_nowait := v; q_for_update_skip_locked := q_for_update_skip_locked s; q_for_update_of := q_for_update_of s; q_force_indexes := q_force_indexes s; q_use_indexes := q_use_indexes s; q_updates := q_updates s; q_columns := q_columns s; q_values := q_values s; q_replace := q_replace s; q_select_into := q_select_into s; q_subquery_count := q_subquery_count s; q_foreign_table := q_foreign_table s; q_mysql_rollup := q_mysql_rollup s |}.
+  {| q_from := q_from s; q_insert_table := q_insert_table s; q_update_table := q_update_table s; q_with := q_with s; q_selects := q_selects s; q_select_star := q_select_star s; q_select_star_tables := q_select_star_tables s; q_joins := q_joins s; q_wheres := q_wheres s; q_prewheres := q_prewheres s; q_havings := q_havings s; q_groupbys := q_groupbys s; q_orderbys := q_orderbys s; q_limit := q_limit s; q_offset := q_offset s; q_distinct := q_distinct s; q_for_update := q_for_update s; q_for_update_nowait := v; q_for_update_skip_locked := q_for_update_skip_locked s; q_for_update_of := q_for_update_of s; q_force_indexes := q_force_indexes s; q_use_indexes := q_use_indexes s; q_updates := q_updates s; q_columns := q_columns s; q_values := q_values s; q_replace := q_replace s; q_select_into := q_select_into s; q_subquery_count := q_subquery_count s; q_foreign_table := q_foreign_table s; q_mysql_rollup := q_mysql_rollup s; q_hint := q_hint s; q_modifiers := q_modifiers s; q_final := q_final s; q_sample := q_sample s; q_sample_offset := q_sample_offset s; q_limit_by := q_limit_by s; q_distinct_on := q_distinct_on s; q_insert_or_replace := q_insert_or_replace s |}.
 Definition set_for_update_skip_locked (v : bool) (s : qstate) : qstate :=
-  {| q_from := q_from s; q_insert_table := q_insert_table s; q_update_table := q_update_table s; q_with := q_with s; q_selects := q_selects s; q_select_star := q_select_star s; q_select_star_tables := q_select_star_tables s; q_joins := q_joins s; q_wheres := q_wheres s; q_prewheres := q_prewheres s; q_havings := q_havings s; q_groupbys := q_groupbys s; q_orderbys := q_orderbys s; q_limit := q_limit s; q_offset := q_offset s; q_distinct := q_distinct s; q_for_update := q_for_update s; q_for_update_nowait := q_for_update_nowait s; q_for_update_skip_locked := v; q_for_update_of := q_for_update_of s; q_force_indexes := q_force_indexes s; q_use_indexes := q_use_indexes s; q_updates := q_updates s; q_columns := q_columns s; q_values := q_values s; q_replace := q_replace s; q_select_into := q_select_into s; q_subquery_count := q_subquery_count s; q_foreign_table := q_foreign_table s; q_mysql_rollup := q_mysql_rollup s |}.
+  {| q_from := q_from s; q_insert_table := q_insert_table s; q_update_table := q_update_table s; q_with := q_with s; q_selects := q_selects s; q_select_star := q_select_star s; q_select_star_tables := q_select_star_tables s; q_joins := q_joins s; q_wheres := q_wheres s; q_prewheres := q_prewheres s; q_havings := q_havings s; q_groupbys := q_groupbys s; q_orderbys := q_orderbys s; q_limit := q_limit s; q_offset := q_offset s; q_distinct := q_distinct s; q_for_update := q_for_update s; q_for_update_nowait := q_for_update_nowait s; q_for_update_skip_locked := v; q_for_update_of := q_for_update_of s; q_force_indexes := q_force_indexes s; q_use_indexes := q_use_indexes s; q_updates := q_updates s; q_columns := q_columns s; q_values := q_values s; q_replace := q_replace s; q_select_into := q_select_into s; q_subquery_count := q_subquery_count s; q_foreign_table := q_foreign_table s; q_mysql_rollup := q_mysql_rollup s; q_hint := q_hint s; q_modifiers := q_modifiers s; q_final := q_final s; q_sample := q_sample s; q_sample_offset := q_sample_offset s; q_limit_by := q_limit_by s; q_distinct_on := q_distinct_on s; q_insert_or_replace := q_insert_or_replace s |}.
 Definition set_for_update_of (v : list string) (s : qstate) : qstate :=
-  {| q_from := q_from s; q_insert_table := q_insert_table s; q_update_table := q_update_table s; q_with := q_with s; q_selects := q_selects s; q_select_star := q_select_star s; q_select_star_tables := q_select_star_tables s; q_joins := q_joins s; q_wheres := q_wheres s; q_prewheres := q_prewheres s; q_havings := q_havings s; q_groupbys := q_groupbys s; q_orderbys := q_orderbys s; q_limit := q_limit s; q_offset := q_offset s; q_distinct := q_distinct s; q_for_update := q_for_update s; q_for_update_nowait := q_for_update_nowait s; q_for_update_skip_locked := q_for_update_skip_locked s; q_for_update_of := v; q_force_indexes := q_force_indexes s; q_use_indexes := q_use_indexes s; q_updates := q_updates s; q_columns := q_columns s; q_values := q_values s; q_replace := q_replace s; q_select_into := q_select_into s; q_subquery_count := q_subquery_count s; q_foreign_table := q_foreign_table s; q_mysql_rollup := q_mysql_rollup s |}.
+  {| q_from := q_from s; q_insert_table := q_insert_table s; q_update_table := q_update_table s; q_with := q_with s; q_selects := q_selects s; q_select_star := q_select_star s; q_select_star_tables := q_select_star_tables s; q_joins := q_joins s; q_wheres := q_wheres s; q_prewheres := q_prewheres s; q_havings := q_havings s; q_groupbys := q_groupbys s; q_orderbys := q_orderbys s; q_limit := q_limit s; q_offset := q_offset s; q_distinct := q_distinct s; q_for_update := q_for_update s; q_for_update_nowait := q_for_update_nowait s; q_for_update_skip_locked := q_for_update_skip_locked s; q_for_update_of := v; q_force_indexes := q_force_indexes s; q_use_indexes := q_use_indexes s; q_updates := q_updates s; q_columns := q_columns s; q_values := q_values s; q_replace := q_replace s; q_select_into := q_select_into s; q_subquery_count := q_subquery_count s; q_foreign_table := q_foreign_table s; q_mysql_rollup := q_mysql_rollup s; q_hint := q_hint s; q_modifiers := q_modifiers s; q_final := q_final s; q_sample := q_sample s; q_sample_offset := q_sample_offset s; q_limit_by := q_limit_by s; q_distinct_on := q_distinct_on s; q_insert_or_replace := q_insert_or_replace s |}.
 Definition set_force_indexes (v : list string) (s : qstate) : qstate :=
-  {| q_from := q_from s; q_insert_table := q_insert_table s; q_update_table := q_update_table s; q_with := q_with s; q_selects := q_selects s; q_select_star := q_select_star s; q_select_star_tables := q_select_star_tables s; q_joins := q_joins s; q_wheres := q_wheres s; q_prewheres := q_prewheres s; q_havings := q_havings s; q_groupbys := q_groupbys s; q_orderbys := q_orderbys s; q_limit := q_limit s; q_offset := q_offset s; q_distinct := q_distinct s; q_for_update := q_for_update s; q_for_update_nowait := q_for_update_nowait s; q_for_update_skip_locked := q_for_update_skip_locked s; q_for_update_of := q_for_update_of s; q_force_indexes := v; q_use_indexes := q_use_indexes s; q_updates := q_updates s; q_columns := q_columns s; q_values := q_values s; q_replace := q_replace s; q_select_into := q_select_into s; q_subquery_count := q_subquery_count s; q_foreign_table := q_foreign_table s; q_mysql_rollup := q_mysql_rollup s |}.
+  {| q_from := q_from s; q_insert_table := q_insert_table s; q_update_table := q_update_table s; q_with := q_with s; q_selects := q_selects s; q_select_star := q_select_star s; q_select_star_tables := q_select_star_tables s; q_joins := q_joins s; q_wheres := q_wheres s; q_prewheres := q_prewheres s; q_havings := q_havings s; q_groupbys := q_groupbys s; q_orderbys := q_orderbys s; q_limit := q_limit s; q_offset := q_offset s; q_distinct := q_distinct s; q_for_update := q_for_update s; q_for_update_nowait := q_for_update_nowait s; q_for_update_skip_locked := q_for_update_skip_locked s; q_for_update_of := q_for_update_of s; q_force_indexes := v; q_use_indexes := q_use_indexes s; q_updates := q_updates s; q_columns := q_columns s; q_values := q_values s; q_replace := q_replace s; q_select_into := q_select_into s; q_subquery_count := q_subquery_count s; q_foreign_table := q_foreign_table s; q_mysql_rollup := q_mysql_rollup s; q_hint := q_hint s; q_modifiers := q_modifiers s; q_final := q_final s; q_sample := q_sample s; q_sample_offset := q_sample_offset s; q_limit_by := q_limit_by s; q_distinct_on := q_distinct_on s; q_insert_or_replace := q_insert_or_replace s |}.
 Definition set_use_indexes (v : list string) (s : qstate) : qstate :=
-  {| q_from := q_from s; q_insert_table := q_insert_table s; q_update_table := q_update_table s; q_with := q_with s; q_selects := q_selects s; q_select_star := q_select_star s; q_select_star_tables := q_select_star_tables s; q_joins := q_joins s; q_wheres := q_wheres s; q_prewheres := q_prewheres s; q_havings := q_havings s; q_groupbys := q_groupbys s; q_orderbys := q_orderbys s; q_limit := q_limit s; q_offset := q_offset s; q_distinct := q_distinct s; q_for_update := q_for_update s; q_for_update_nowait := q_for_update_nowait s; q_for_update_skip_locked := q_for_update_skip_locked s; q_for_update_of := q_for_update_of s; q_force_indexes := q_force_indexes s; q_use_indexes := v; q_updates := q_updates s; q_columns := q_columns s; q_values := q_values s; q_replace := q_replace s; q_select_into := q_select_into s; q_subquery_count := q_subquery_count s; q_foreign_table := q_foreign_table s; q_mysql_rollup := q_mysql_rollup s |}.
+  {| q_from := q_from s; q_insert_table := q_insert_table s; q_update_table := q_update_table s; q_with := q_with s; q_selects := q_selects s; q_select_star := q_select_star s; q_select_star_tables := q_select_star_tables s; q_joins := q_joins s; q_wheres := q_wheres s; q_prewheres := q_prewheres s; q_havings := q_havings s; q_groupbys := q_groupbys s; q_orderbys := q_orderbys s; q_limit := q_limit s; q_offset := q_offset s; q_distinct := q_distinct s; q_for_update := q_for_update s; q_for_update_nowait := q_for_update_nowait s; q_for_update_skip_locked := q_for_update_skip_locked s; q_for_update_of := q_for_update_of s; q_force_indexes := q_force_indexes s; q_use_indexes := v; q_updates := q_updates s; q_columns := q_columns s; q_values := q_values s; q_replace := q_replace s; q_select_into := q_select_into s; q_subquery_count := q_subquery_count s; q_foreign_table := q_foreign_table s; q_mysql_rollup := q_mysql_rollup s; q_hint := q_hint s; q_modifiers := q_modifiers s; q_final := q_final s; q_sample := q_sample s; q_sample_offset := q_sample_offset s; q_limit_by := q_limit_by s; q_distinct_on := q_distinct_on s; q_insert_or_replace := q_insert_or_replace s |}.
 Definition set_updates (v : list (term * term)) (s : qstate) : qstate :=
-  {| q_from := q_from s; q_insert_table := q_insert_table s; q_update_table := q_update_table s; q_with := q_with s; q_selects := q_selects s; q_select_star := q_select_star s; q_select_star_tables := q_select_star_tables s; q_joins := q_joins s; q_wheres := q_wheres s; q_prewheres := q_prewheres s; q_havings := q_havings s; q_groupbys := q_groupbys s; q_orderbys := q_orderbys s; q_limit := q_limit s; q_offset := q_offset s; q_distinct := q_distinct s; q_for_update := q_for_update s; q_for_update_nowait := q_for_update_nowait s; q_for_update_skip_locked := q_for_update_skip_locked s; q_for_update_of := q_for_update_of s; q_force_indexes := q_force_indexes s; q_use_indexes := q_use_indexes s; q_updates := v; q_columns := q_columns s; q_values := q_values s; q_replace := q_replace s; q_select_into := q_select_into s; q_subquery_count := q_subquery_count s; q_foreign_table := q_foreign_table s; q_mysql_rollup := q_mysql_rollup s |}.
+  {| q_from := q_from s; q_insert_table := q_insert_table s; q_update_table := q_update_table s; q_with := q_with s; q_selects := q_selects s; q_select_star := q_select_star s; q_select_star_tables := q_select_star_tables s; q_joins := q_joins s; q_wheres := q_wheres s; q_prewheres := q_prewheres s; q_havings := q_havings s; q_groupbys := q_groupbys s; q_orderbys := q_orderbys s; q_limit := q_limit s; q_offset := q_offset s; q_distinct := q_distinct s; q_for_update := q_for_update s; q_for_update_nowait := q_for_update_nowait s; q_for_update_skip_locked := q_for_update_skip_locked s; q_for_update_of := q_for_update_of s; q_force_indexes := q_force_indexes s; q_use_indexes := q_use_indexes s; q_updates := v; q_columns := q_columns s; q_values := q_values s; q_replace := q_replace s; q_select_into := q_select_into s; q_subquery_count := q_subquery_count s; q_foreign_table := q_foreign_table s; q_mysql_rollup := q_mysql_rollup s; q_hint := q_hint s; q_modifiers := q_modifiers s; q_final := q_final s; q_sample := q_sample s; q_sample_offset := q_sample_offset s; q_limit_by := q_limit_by s; q_distinct_on := q_distinct_on s; q_insert_or_replace := q_insert_or_replace s |}.
 Definition set_columns (v : list term) (s : qstate) : qstate :=
-  {| q_from := q_from s; q_insert_table := q_insert_table s; q_update_table := q_update_table s; q_with := q_with s; q_selects := q_selects s; q_select_star := q_select_star s; q_select_star_tables := q_select_star_tables s; q_joins := q_joins s; q_wheres := q_wheres s; q_prewheres := q_prewheres s; q_havings := q_havings s; q_groupbys := q_groupbys s; q_orderbys := q_orderbys s; q_limit := q_limit s; q_offset := q_offset s; q_distinct := q_distinct s; q_for_update := q_for_update s; q_for_update_nowait := q_for_update_nowait s; q_for_update_skip_locked := q_for_update_skip_locked s; q_for_update_of := q_for_update_of s; q_force_indexes := q_force_indexes s; q_use_indexes := q_use_indexes s; q_updates := q_updates s; q_columns := v; q_values := q_values s; q_replace := q_replace s; q_select_into := q_select_into s; q_subquery_count := q_subquery_count s; q_foreign_table := q_foreign_table s; q_mysql_rollup := q_mysql_rollup s |}.
+  {| q_from := q_from s; q_insert_table := q_insert_table s; q_update_table := q_update_table s; q_with := q_with s; q_selects := q_selects s; q_select_star := q_select_star s; q_select_star_tables := q_select_star_tables s; q_joins := q_joins s; q_wheres := q_wheres s; q_prewheres := q_prewheres s; q_havings := q_havings s; q_groupbys := q_groupbys s; q_orderbys := q_orderbys s; q_limit := q_limit s; q_offset := q_offset s; q_distinct := q_distinct s; q_for_update := q_for_update s; q_for_update_nowait := q_for_update_nowait s; q_for_update_skip_locked := q_for_update_skip_locked s; q_for_update_of := q_for_update_of s; q_force_indexes := q_force_indexes s; q_use_indexes := q_use_indexes s; q_updates := q_updates s; q_columns := v; q_values := q_values s; q_replace := q_replace s; q_select_into := q_select_into s; q_subquery_count := q_subquery_count s; q_foreign_table := q_foreign_table s; q_mysql_rollup := q_mysql_rollup s; q_hint := q_hint s; q_modifiers := q_modifiers s; q_final := q_final s; q_sample := q_sample s; q_sample_offset := q_sample_offset s; q_limit_by := q_limit_by s; q_distinct_on := q_distinct_on s; q_insert_or_replace := q_insert_or_replace s |}.
 Definition set_values (v : list (list term)) (s : qstate) : qstate :=
-  {| q_from := q_from s; q_insert_table := q_insert_table s; q_update_table := q_update_table s; q_with := q_with s; q_selects := q_selects s; q_select_star := q_select_star s; q_select_star_tables := q_select_star_tables s; q_joins := q_joins s; q_wheres := q_wheres s; q_prewheres := q_prewheres s; q_havings := q_havings s; q_groupbys := q_groupbys s; q_orderbys := q_orderbys s; q_limit := q_limit s; q_offset := q_offset s; q_distinct := q_distinct s; q_for_update := q_for_update s; q_for_update_nowait := q_for_update_nowait s; q_for_update_skip_locked := q_for_update_skip_locked s; q_for_update_of := q_for_update_of s; q_force_indexes := q_force_indexes s; q_use_indexes := q_use_indexes s; q_updates := q_updates s; q_columns := q_columns s; q_values := v; q_replace := q_replace s; q_select_into := q_select_into s; q_subquery_count := q_subquery_count s; q_foreign_table := q_foreign_table s; q_mysql_rollup := q_mysql_rollup s |}.
+  {| q_from := q_from s; q_insert_table := q_insert_table s; q_update_table := q_update_table s; q_with := q_with s; q_selects := q_selects s; q_select_star := q_select_star s; q_select_star_tables := q_select_star_tables s; q_joins := q_joins s; q_wheres := q_wheres s; q_prewheres := q_prewheres s; q_havings := q_havings s; q_groupbys := q_groupbys s; q_orderbys := q_orderbys s; q_limit := q_limit s; q_offset := q_offset s; q_distinct := q_distinct s; q_for_update := q_for_update s; q_for_update_nowait := q_for_update_nowait s; q_for_update_skip_locked := q_for_update_skip_locked s; q_for_update_of := q_for_update_of s; q_force_indexes := q_force_indexes s; q_use_indexes := q_use_indexes s; q_updates := q_updates s; q_columns := q_columns s; q_values := v; q_replace := q_replace s; q_select_into := q_select_into s; q_subquery_count := q_subquery_count s; q_foreign_table := q_foreign_table s; q_mysql_rollup := q_mysql_rollup s; q_hint := q_hint s; q_modifiers := q_modifiers s; q_final := q_final s; q_sample := q_sample s; q_sample_offset := q_sample_offset s; q_limit_by := q_limit_by s; q_distinct_on := q_distinct_on s; q_insert_or_replace := q_insert_or_replace s |}.
 Definition set_replace (v : bool) (s : qstate) : qstate :=
-  {| q_from := q_from s; q_insert_table := q_insert_table s; q_update_table := q_update_table s; q_with := q_with s; q_selects := q_selects s; q_select_star := q_select_star s; q_select_star_tables := q_select_star_tables s; q_joins := q_joins s; q_wheres := q_wheres s; q_prewheres := q_prewheres s; q_havings := q_havings s; q_groupbys := q_groupbys s; q_orderbys := q_orderbys s; q_limit := q_limit s; q_offset := q_offset s; q_distinct := q_distinct s; q_for_update := q_for_update s; q_for_update_nowait := q_for_update_nowait s; q_for_update_skip_locked := q_for_update_skip_locked s; q_for_update_of := q_for_update_of s; q_force_indexes := q_force_indexes s; q_use_indexes := q_use_indexes s; q_updates := q_updates s; q_columns := q_columns s; q_values := q_values s; q_replace := v; q_select_into := q_select_into s; q_subquery_count := q_subquery_count s; q_foreign_table := q_foreign_table s; q_mysql_rollup := q_mysql_rollup s |}.
+  {| q_from := q_from s; q_insert_table := q_insert_table s; q_update_table := q_update_table s; q_with := q_with s; q_selects := q_selects s; q_select_star := q_select_star s; q_select_star_tables := q_select_star_tables s; q_joins := q_joins s; q_wheres := q_wheres s; q_prewheres := q_prewheres s; q_havings := q_havings s; q_groupbys := q_groupbys s; q_orderbys := q_orderbys s; q_limit := q_limit s; q_offset := q_offset s; q_distinct := q_distinct s; q_for_update := q_for_update s; q_for_update_nowait := q_for_update_nowait s; q_for_update_skip_locked := q_for_update_skip_locked s; q_for_update_of := q_for_update_of s; q_force_indexes := q_force_indexes s; q_use_indexes := q_use_indexes s; q_updates := q_updates s; q_columns := q_columns s; q_values := q_values s; q_replace := v; q_select_into := q_select_into s; q_subquery_count := q_subquery_count s; q_foreign_table := q_foreign_table s; q_mysql_rollup := q_mysql_rollup s; q_hint := q_hint s; q_modifiers := q_modifiers s; q_final := q_final s; q_sample := q_sample s; q_sample_offset := q_sample_offset s; q_limit_by := q_limit_by s; q_distinct_on := q_distinct_on s; q_insert_or_replace := q_insert_or_replace s |}.
 Definition set_select_into (v : bool) (s : qstate) : qstate :=
-  {| q_from := q_from s; q_insert_table := q_insert_table s; q_update_table := q_update_table s; q_with := q_with s; q_selects := q_selects s; q_select_star := q_select_star s; q_select_star_tables := q_select_star_tables s; q_joins := q_joins s; q_wheres := q_wheres s; q_prewheres := q_prewheres s; q_havings := q_havings s; q_groupbys := q_groupbys s; q_orderbys := q_orderbys s; q_limit := q_limit s; q_offset := q_offset s; q_distinct := q_distinct s; q_for_update := q_for_update s; q_for_update_nowait := q_for_update_nowait s; q_for_update_skip_locked := q_for_update_skip_locked s; q_for_update_of := q_for_update_of s; q_force_indexes := q_force_indexes s; q_use_indexes := q_use_indexes s; q_updates := q_updates s; q_columns := q_columns s; q_values := q_values s; q_replace := q_replace s; q_select_into := v; q_subquery_count := q_subquery_count s; q_foreign_table := q_foreign_table s; q_mysql_rollup := q_mysql_rollup s |}.
+  {| q_from := q_from s; q_insert_table := q_insert_table s; q_update_table := q_update_table s; q_with := q_with s; q_selects := q_selects s; q_select_star := q_select_star s; q_select_star_tables := q_select_star_tables s; q_joins := q_joins s; q_wheres := q_wheres s; q_prewheres := q_prewheres s; q_havings := q_havings s; q_groupbys := q_groupbys s; q_orderbys := q_orderbys s; q_limit := q_limit s; q_offset := q_offset s; q_distinct := q_distinct s; q_for_update := q_for_update s; q_for_update_nowait := q_for_update_nowait s; q_for_update_skip_locked := q_for_update_skip_locked s; q_for_update_of := q_for_update_of s; q_force_indexes := q_force_indexes s; q_use_indexes := q_use_indexes s; q_updates := q_updates s; q_columns := q_columns s; q_values := q_values s; q_replace := q_replace s; q_select_into := v; q_subquery_count := q_subquery_count s; q_foreign_table := q_foreign_table s; q_mysql_rollup := q_mysql_rollup s; q_hint := q_hint s; q_modifiers := q_modifiers s; q_final := q_final s; q_sample := q_sample s; q_sample_offset := q_sample_offset s; q_limit_by := q_limit_by s; q_distinct_on := q_distinct_on s; q_insert_or_replace := q_insert_or_replace s |}.
 Definition set_subquery_count (v : Z) (s : qstate) : qstate :=
-  {| q_from := q_from s; q_insert_table := q_insert_table s; q_update_table := q_update_table s; q_with := q_with s; q_selects := q_selects s; q_select_star := q_select_star s; q_select_star_tables := q_select_star_tables s; q_joins := q_joins s; q_wheres := q_wheres s; q_prewheres := q_prewheres s; q_havings := q_havings s; q_groupbys := q_groupbys s; q_orderbys := q_orderbys s; q_limit := q_limit s; q_offset := q_offset s; q_distinct := q_distinct s; q_for_update := q_for_update s; q_for_update_nowait := q_for_update_nowait s; q_for_update_skip_locked := q_for_update_skip_locked s; q_for_update_of := q_for_update_of s; q_force_indexes := q_force_indexes s; q_use_indexes := q_use_indexes s; q_updates := q_updates s; q_columns := q_columns s; q_values := q_values s; q_replace := q_replace s; q_select_into := q_select_into s; q_subquery_count := v; q_foreign_table := q_foreign_table s; q_mysql_rollup := q_mysql_rollup s |}.
+  {| q_from := q_from s; q_insert_table := q_insert_table s; q_update_table := q_update_table s; q_with := q_with s; q_selects := q_selects s; q_select_star := q_select_star s; q_select_star_tables := q_select_star_tables s; q_joins := q_joins s; q_wheres := q_wheres s; q_prewheres := q_prewheres s; q_havings := q_havings s; q_groupbys := q_groupbys s; q_orderbys := q_orderbys s; q_limit := q_limit s; q_offset := q_offset s; q_distinct := q_distinct s; q_for_update := q_for_update s; q_for_update_nowait := q_for_update_nowait s; q_for_update_skip_locked := q_for_update_skip_locked s; q_for_update_of := q_for_update_of s; q_force_indexes := q_force_indexes s; q_use_indexes := q_use_indexes s; q_updates := q_updates s; q_columns := q_columns s; q_values := q_values s; q_replace := q_replace s; q_select_into := q_select_into s; q_subquery_count := v; q_foreign_table := q_foreign_table s; q_mysql_rollup := q_mysql_rollup s; q_hint := q_hint s; q_modifiers := q_modifiers s; q_final := q_final s; q_sample := q_sample s; q_sample_offset := q_sample_offset s; q_limit_by := q_limit_by s; q_distinct_on := q_distinct_on s; q_insert_or_replace := q_insert_or_replace s |}.
 Definition set_foreign_table (v : bool) (s : qstate) : qstate :=
-  {| q_from := q_from s; q_insert_table := q_insert_table s; q_update_table := q_update_table s; q_with := q_with s; q_selects := q_selects s; q_select_star := q_select_star s; q_select_star_tables := q_select_star_tables s; q_joins := q_joins s; q_wheres := q_wheres s; q_prewheres := q_prewheres s; q_havings := q_havings s; q_groupbys := q_groupbys s; q_orderbys := q_orderbys s; q_limit := q_limit s; q_offset := q_offset s; q_distinct := q_distinct s; q_for_update := q_for_update s; q_for_update_nowait := q_for_update_nowait s; q_for_update_skip_locked := q_for_update_skip_locked s; q_for_update_of := q_for_update_of s; q_force_indexes := q_force_indexes s; q_use_indexes := q_use_indexes s; q_updates := q_updates s; q_columns := q_columns s; q_values := q_values s; q_replace := q_replace s; q_select_into := q_select_into s; q_subquery_count := q_subquery_count s; q_foreign_table := v; q_mysql_rollup := q_mysql_rollup s |}.
+  {| q_from := q_from s; q_insert_table := q_insert_table s; q_update_table := q_update_table s; q_with := q_with s; q_selects := q_selects s; q_select_star := q_select_star s; q_select_star_tables := q_select_star_tables s; q_joins := q_joins s; q_wheres := q_wheres s; q_prewheres := q_prewheres s; q_havings := q_havings s; q_groupbys := q_groupbys s; q_orderbys := q_orderbys s; q_limit := q_limit s; q_offset := q_offset s; q_distinct := q_distinct s; q_for_update := q_for_update s; q_for_update_nowait := q_for_update_nowait s; q_for_update_skip_locked := q_for_update_skip_locked s; q_for_update_of := q_for_update_of s; q_force_indexes := q_force_indexes s; q_use_indexes := q_use_indexes s; q_updates := q_updates s; q_columns := q_columns s; q_values := q_values s; q_replace := q_replace s; q_select_into := q_select_into s; q_subquery_count := q_subquery_count s; q_foreign_table := v; q_mysql_rollup := q_mysql_rollup s; q_hint := q_hint s; q_modifiers := q_modifiers s; q_final := q_final s; q_sample := q_sample s; q_sample_offset := q_sample_offset s; q_limit_by := q_limit_by s; q_distinct_on := q_distinct_on s; q_insert_or_replace := q_insert_or_replace s |}.
 Definition set_mysql_rollup (v : bool) (s : qstate) : qstate :=
-  {| q_from := q_from s; q_insert_table := q_insert_table s; q_update_table := q_update_table s; q_with := q_with s; q_selects := q_selects s; q_select_star := q_select_star s; q_select_star_tables := q_select_star_tables s; q_joins := q_joins s; q_wheres := q_wheres s; q_prewheres := q_prewheres s; q_havings := q_havings s; q_groupbys := q_groupbys s; q_orderbys := q_orderbys s; q_limit := q_limit s; q_offset := q_offset s; q_distinct := q_distinct s; q_for_update := q_for_update s; q_for_update_nowait := q_for_update_nowait s; q_for_update_skip_locked := q_for_update_skip_locked s; q_for_update_of := q_for_update_of s; q_force_indexes := q_force_indexes s; q_use_indexes := q_use_indexes s; q_updates := q_updates s; q_columns := q_columns s; q_values := q_values s; q_replace := q_replace s; q_select_into := q_select_into s; q_subquery_count := q_subquery_count s; q_foreign_table := q_foreign_table s; q_mysql_rollup := v |}.
+  {| q_from := q_from s; q_insert_table := q_insert_table s; q_update_table := q_update_table s; q_with := q_with s; q_selects := q_selects s; q_select_star := q_select_star s; q_select_star_tables := q_select_star_tables s; q_joins := q_joins s; q_wheres := q_wheres s; q_prewheres := q_prewheres s; q_havings := q_havings s; q_groupbys := q_groupbys s; q_orderbys := q_orderbys s; q_limit := q_limit s; q_offset := q_offset s; q_distinct := q_distinct s; q_for_update := q_for_update s; q_for_update_nowait := q_for_update_nowait s; q_for_update_skip_locked := q_for_update_skip_locked s; q_for_update_of := q_for_update_of s; q_force_indexes := q_force_indexes s; q_use_indexes := q_use_indexes s; q_updates := q_updates s; q_columns := q_columns s; q_values := q_values s; q_replace := q_replace s; q_select_into := q_select_into s; q_subquery_count := q_subquery_count s; q_foreign_table := q_foreign_table s; q_mysql_rollup := v; q_hint := q_hint s; q_modifiers := q_modifiers s; q_final := q_final s; q_sample := q_sample s; q_sample_offset := q_sample_offset s; q_limit_by := q_limit_by s; q_distinct_on := q_distinct_on s; q_insert_or_replace := q_insert_or_replace s |}.
+Definition set_hint (v : option string) (s : qstate) : qstate :=
+  {| q_from := q_from s; q_insert_table := q_insert_table s; q_update_table := q_update_table s; q_with := q_with s; q_selects := q_selects s; q_select_star := q_select_star s; q_select_star_tables := q_select_star_tables s; q_joins := q_joins s; q_wheres := q_wheres s; q_prewheres := q_prewheres s; q_havings := q_havings s; q_groupbys := q_groupbys s; q_orderbys := q_orderbys s; q_limit := q_limit s; q_offset := q_offset s; q_distinct := q_distinct s; q_for_update := q_for_update s; q_for_update_nowait := q_for_update_nowait s; q_for_update_skip_locked := q_for_update_skip_locked s; q_for_update_of := q_for_update_of s; q_force_indexes := q_force_indexes s; q_use_indexes := q_use_indexes s; q_updates := q_updates s; q_columns := q_columns s; q_values := q_values s; q_replace := q_replace s; q_select_into := q_select_into s; q_subquery_count := q_subquery_count s; q_foreign_table := q_foreign_table s; q_mysql_rollup := q_mysql_rollup s; q_hint := v; q_modifiers := q_modifiers s; q_final := q_final s; q_sample := q_sample s; q_sample_offset := q_sample_offset s; q_limit_by := q_limit_by s; q_distinct_on := q_distinct_on s; q_insert_or_replace := q_insert_or_replace s |}.
+Definition set_modifiers (v : list string) (s : qstate) : qstate :=
+  {| q_from := q_from s; q_insert_table := q_insert_table s; q_update_table := q_update_table s; q_with := q_with s; q_selects := q_selects s; q_select_star := q_select_star s; q_select_star_tables := q_select_star_tables s; q_joins := q_joins s; q_wheres := q_wheres s; q_prewheres := q_prewheres s; q_havings := q_havings s; q_groupbys := q_groupbys s; q_orderbys := q_orderbys s; q_limit := q_limit s; q_offset := q_offset s; q_distinct := q_distinct s; q_for_update := q_for_update s; q_for_update_nowait := q_for_update_nowait s; q_for_update_skip_locked := q_for_update_skip_locked s; q_for_update_of := q_for_update_of s; q_force_indexes := q_force_indexes s; q_use_indexes := q_use_indexes s; q_updates := q_updates s; q_columns := q_columns s; q_values := q_values s; q_replace := q_replace s; q_select_into := q_select_into s; q_subquery_count := q_subquery_count s; q_foreign_table := q_foreign_table s; q_mysql_rollup := q_mysql_rollup s; q_hint := q_hint s; q_modifiers := v; q_final := q_final s; q_sample := q_sample s; q_sample_offset := q_sample_offset s; q_limit_by := q_limit_by s; q_distinct_on := q_distinct_on s; q_insert_or_replace := q_insert_or_replace s |}.
+Definition set_final (v : bool) (s : qstate) : qstate :=
+  {| q_from := q_from s; q_insert_table := q_insert_table s; q_update_table := q_update_table s; q_with := q_with s; q_selects := q_selects s; q_select_star := q_select_star s; q_select_star_tables := q_select_star_tables s; q_joins := q_joins s; q_wheres := q_wheres s; q_prewheres := q_prewheres s; q_havings := q_havings s; q_groupbys := q_groupbys s; q_orderbys := q_orderbys s; q_limit := q_limit s; q_offset := q_offset s; q_distinct := q_distinct s; q_for_update := q_for_update s; q_for_update_nowait := q_for_update_nowait s; q_for_update_skip_locked := q_for_update_skip_locked s; q_for_update_of := q_for_update_of s; q_force_indexes := q_force_indexes s; q_use_indexes := q_use_indexes s; q_updates := q_updates s; q_columns := q_columns s; q_values := q_values s; q_replace := q_replace s; q_select_into := q_select_into s; q_subquery_count := q_subquery_count s; q_foreign_table := q_foreign_table s; q_mysql_rollup := q_mysql_rollup s; q_hint := q_hint s; q_modifiers := q_modifiers s; q_final := v; q_sample := q_sample s; q_sample_offset := q_sample_offset s; q_limit_by := q_limit_by s; q_distinct_on := q_distinct_on s; q_insert_or_replace := q_insert_or_replace s |}.
+Definition set_sample (v : option Z) (s : qstate) : qstate :=
+  {| q_from := q_from s; q_insert_table := q_insert_table s; q_update_table := q_update_table s; q_with := q_with s; q_selects := q_selects s; q_select_star := q_select_star s; q_select_star_tables := q_select_star_tables s; q_joins := q_joins s; q_wheres := q_wheres s; q_prewheres := q_prewheres s; q_havings := q_havings s; q_groupbys := q_groupbys s; q_orderbys := q_orderbys s; q_limit := q_limit s; q_offset := q_offset s; q_distinct := q_distinct s; q_for_update := q_for_update s; q_for_update_nowait := q_for_update_nowait s; q_for_update_skip_locked := q_for_update_skip_locked s; q_for_update_of := q_for_update_of s; q_force_indexes := q_force_indexes s; q_use_indexes := q_use_indexes s; q_updates := q_updates s; q_columns := q_columns s; q_values := q_values s; q_replace := q_replace s; q_select_into := q_select_into s; q_subquery_count := q_subquery_count s; q_foreign_table := q_foreign_table s; q_mysql_rollup := q_mysql_rollup s; q_hint := q_hint s; q_modifiers := q_modifiers s; q_final := q_final s; q_sample := v; q_sample_offset := q_sample_offset s; q_limit_by := q_limit_by s; q_distinct_on := q_distinct_on s; q_insert_or_replace := q_insert_or_replace s |}.
+Definition set_sample_offset (v : option Z) (s : qstate) : qstate :=
+  {| q_from := q_from s; q_insert_table := q_insert_table s; q_update_table := q_update_table s; q_with := q_with s; q_selects := q_selects s; q_select_star := q_select_star s; q_select_star_tables := q_select_star_tables s; q_joins := q_joins s; q_wheres := q_wheres s; q_prewheres := q_prewheres s; q_havings := q_havings s; q_groupbys := q_groupbys s; q_orderbys := q_orderbys s; q_limit := q_limit s; q_offset := q_offset s; q_distinct := q_distinct s; q_for_update := q_for_update s; q_for_update_nowait := q_for_update_nowait s; q_for_update_skip_locked := q_for_update_skip_locked s; q_for_update_of := q_for_update_of s; q_force_indexes := q_force_indexes s; q_use_indexes := q_use_indexes s; q_updates := q_updates s; q_columns := q_columns s; q_values := q_values s; q_replace := q_replace s; q_select_into := q_select_into s; q_subquery_count := q_subquery_count s; q_foreign_table := q_foreign_table s; q_mysql_rollup := q_mysql_rollup s; q_hint := q_hint s; q_modifiers := q_modifiers s; q_final := q_final s; q_sample := q_sample s; q_sample_offset := v; q_limit_by := q_limit_by s; q_distinct_on := q_distinct_on s; q_insert_or_replace := q_insert_or_replace s |}.
+Definition set_limit_by (v : option (Z * Z * list term)) (s : qstate) : qstate :=
+  {| q_from := q_from s; q_insert_table := q_insert_table s; q_update_table := q_update_table s; q_with := q_with s; q_selects := q_selects s; q_select_star := q_select_star s; q_select_star_tables := q_select_star_tables s; q_joins := q_joins s; q_wheres := q_wheres s; q_prewheres := q_prewheres s; q_havings := q_havings s; q_groupbys := q_groupbys s; q_orderbys := q_orderbys s; q_limit := q_limit s; q_offset := q_offset s; q_distinct := q_distinct s; q_for_update := q_for_update s; q_for_update_nowait := q_for_update_nowait s; q_for_update_skip_locked := q_for_update_skip_locked s; q_for_update_of := q_for_update_of s; q_force_indexes := q_force_indexes s; q_use_indexes := q_use_indexes s; q_updates := q_updates s; q_columns := q_columns s; q_values := q_values s; q_replace := q_replace s; q_select_into := q_select_into s; q_subquery_count := q_subquery_count s; q_foreign_table := q_foreign_table s; q_mysql_rollup := q_mysql_rollup s; q_hint := q_hint s; q_modifiers := q_modifiers s; q_final := q_final s; q_sample := q_sample s; q_sample_offset := q_sample_offset s; q_limit_by := v; q_distinct_on := q_distinct_on s; q_insert_or_replace := q_insert_or_replace s |}.
+Definition set_distinct_on (v : list term) (s : qstate) : qstate :=
+  {| q_from := q_from s; q_insert_table := q_insert_table s; q_update_table := q_update_table s; q_with := q_with s; q_selects := q_selects s; q_select_star := q_select_star s; q_select_star_tables := q_select_star_tables s; q_joins := q_joins s; q_wheres := q_wheres s; q_prewheres := q_prewheres s; q_havings := q_havings s; q_groupbys := q_groupbys s; q_orderbys := q_orderbys s; q_limit := q_limit s; q_offset := q_offset s; q_distinct := q_distinct s; q_for_update := q_for_update s; q_for_update_nowait := q_for_update_nowait s; q_for_update_skip_locked := q_for_update_skip_locked s; q_for_update_of := q_for_update_of s; q_force_indexes := q_force_indexes s; q_use_indexes := q_use_indexes s; q_updates := q_updates s; q_columns := q_columns s; q_values := q_values s; q_replace := q_replace s; q_select_into := q_select_into s; q_subquery_count := q_subquery_count s; q_foreign_table := q_foreign_table s; q_mysql_rollup := q_mysql_rollup s; q_hint := q_hint s; q_modifiers := q_modifiers s; q_final := q_final s; q_sample := q_sample s; q_sample_offset := q_sample_offset s; q_limit_by := q_limit_by s; q_distinct_on := v; q_insert_or_replace := q_insert_or_replace s |}.
+Definition set_insert_or_replace (v : bool) (s : qstate) : qstate :=
+  {| q_from := q_from s; q_insert_table := q_insert_table s; q_update_table := q_update_table s; q_with := q_with s; q_selects := q_selects s; q_select_star := q_select_star s; q_select_star_tables := q_select_star_tables s; q_joins := q_joins s; q_wheres := q_wheres s; q_prewheres := q_prewheres s; q_havings := q_havings s; q_groupbys := q_groupbys s; q_orderbys := q_orderbys s; q_limit := q_limit s; q_offset := q_offset s; q_distinct := q_distinct s; q_for_update := q_for_update s; q_for_update_nowait := q_for_update_nowait s; q_for_update_skip_locked := q_for_update_skip_locked s; q_for_update_of := q_for_update_of s; q_force_indexes := q_force_indexes s; q_use_indexes := q_use_indexes s; q_updates := q_updates s; q_columns := q_columns s; q_values := q_values s; q_replace := q_replace s; q_select_into := q_select_into s; q_subquery_count := q_subquery_count s; q_foreign_table := q_foreign_table s; q_mysql_rollup := q_mysql_rollup s; q_hint := q_hint s; q_modifiers := q_modifiers s; q_final := q_final s; q_sample := q_sample s; q_sample_offset := q_sample_offset s; q_limit_by := q_limit_by s; q_distinct_on := q_distinct_on s; q_insert_or_replace := v |}.
 
 (* one name per slot of the record *)
-Inductive slot := S_from | S_insert_table | S_update_table | S_with | S_selects | S_select_star | S_select_star_tables | S_joins | S_wheres | S_prewheres | S_havings | S_groupbys | S_orderbys | S_limit | S_offset | S_distinct | S_for_update | S_for_update_nowait | S_for_update_skip_locked | S_for_update_of | S_force_indexes | S_use_indexes | S_updates | S_columns | S_values | S_replace | S_select_into | S_subquery_count | S_foreign_table | S_mysql_rollup.
-Definition all_slots : list slot := [S_from; S_insert_table; S_update_table; S_with; S_selects; S_select_star; S_select_star_tables; S_joins; S_wheres; S_prewheres; S_havings; S_groupbys; S_orderbys; S_limit; S_offset; S_distinct; S_for_update; S_for_update_nowait; S_for_update_skip_locked; S_for_update_of; S_force_indexes; S_use_indexes; S_updates; S_columns; S_values; S_replace; S_select_into; S_subquery_count; S_foreign_table; S_mysql_rollup].
+Inductive slot := S_from | S_insert_table | S_update_table | S_with | S_selects | S_select_star | S_select_star_tables | S_joins | S_wheres | S_prewheres | S_havings | S_groupbys | S_orderbys | S_limit | S_offset | S_distinct | S_for_update | S_for_update_nowait | S_for_update_skip_locked | S_for_update_of | S_force_indexes | S_use_indexes | S_updates | S_columns | S_values | S_replace | S_select_into | S_subquery_count | S_foreign_table | S_mysql_rollup | S_hint | S_modifiers | S_final | S_sample | S_sample_offset | S_limit_by | S_distinct_on | S_insert_or_replace.
+Definition all_slots : list slot := [S_from; S_insert_table; S_update_table; S_with; S_selects; S_select_star; S_select_star_tables; S_joins; S_wheres; S_prewheres; S_havings; S_groupbys; S_orderbys; S_limit; S_offset; S_distinct; S_for_update; S_for_update_nowait; S_for_update_skip_locked; S_for_update_of; S_force_indexes; S_use_indexes; S_updates; S_columns; S_values; S_replace; S_select_into; S_subquery_count; S_foreign_table; S_mysql_rollup; S_hint; S_modifiers; S_final; S_sample; S_sample_offset; S_limit_by; S_distinct_on; S_insert_or_replace].
 Definition slot_eqb (a b : slot) : bool :=
   match a, b with
   | S_from, S_from => true
@@ -222,6 +252,14 @@ Definition slot_eqb (a b : slot) : bool :=
   | S_subquery_count, S_subquery_count => true
   | S_foreign_table, S_foreign_table => true
   | S_mysql_rollup, S_mysql_rollup => true
+  | S_hint, S_hint => true
+  | S_modifiers, S_modifiers => true
+  | S_final, S_final => true
+  | S_sample, S_sample => true
+  | S_sample_offset, S_sample_offset => true
+  | S_limit_by, S_limit_by => true
+  | S_distinct_on, S_distinct_on => true
+  | S_insert_or_replace, S_insert_or_replace => true
   | _, _ => false
   end.
 (* two states agree on a slot *)
@@ -257,12 +295,20 @@ Definition eq_on (x : slot) (a b : qstate) : Prop :=
   | S_subquery_count => q_subquery_count a = q_subquery_count b
   | S_foreign_table => q_foreign_table a = q_foreign_table b
   | S_mysql_rollup => q_mysql_rollup a = q_mysql_rollup b
+  | S_hint => q_hint a = q_hint b
+  | S_modifiers => q_modifiers a = q_modifiers b
+  | S_final => q_final a = q_final b
+  | S_sample => q_sample a = q_sample b
+  | S_sample_offset => q_sample_offset a = q_sample_offset b
+  | S_limit_by => q_limit_by a = q_limit_by b
+  | S_distinct_on => q_distinct_on a = q_distinct_on b
+  | S_insert_or_replace => q_insert_or_replace a = q_insert_or_replace b
   end.
 
 (* QueryBuilder.__init__ *)
 Definition init : qstate :=
   mkq [] None None [] [] false [] [] None None None [] [] None None false false false false [] [] [] [] [] []
-      false false 0 false false.
+      false false 0 false false None [] false None None None [] false.
 
 (* ---- arguments of the calls ---------------------------------------------------------------- *)
 Inductive sel_item := SField (t : term) | SStr (s : string) | SOther (t : term).
@@ -297,7 +343,14 @@ Inductive call :=
 | CUseIndex (names : list string)
 | CSet (field value : term)
 | CColumns (items : list col_item)
-| CInsert (replace : bool) (rows : list (list term)).
+| CInsert (replace : bool) (rows : list (list term))
+| CInsertOrReplace (rows : list (list term))         (* SQLite insert_or_replace *)
+| CHint (label : string)                             (* Vertica hint(label) *)
+| CModifier (value : string)                         (* MySQL modifier(value) *)
+| CFinal                                             (* ClickHouse final() *)
+| CSample (n : Z) (offset : option Z)                (* ClickHouse sample(n, offset=None) *)
+| CLimitBy (n offset : Z) (by_ : list col_item)      (* ClickHouse limit_by(n, by) [offset 0] / limit_offset_by *)
+| CDistinctOn (fields : list col_item).              (* PostgreSQL / ClickHouse distinct_on( fields) *)
 
 Definition kind_of (c : call) : kind :=
   match c with
@@ -306,7 +359,9 @@ Definition kind_of (c : call) : kind :=
   | CHaving _ => KHaving | CGroupby _ => KGroupby | CRollup _ _ => KGroupby | COrderby _ _ => KOrderby
   | CLimit _ => KLimit | COffset _ => KOffset | CDistinct => KDistinct | CForUpdate _ => KForUpdate
   | CWith _ _ => KWith | CForceIndex _ => KForceIndex | CUseIndex _ => KUseIndex | CSet _ _ => KSet
-  | CColumns _ => KColumns | CInsert _ _ => KInsert
+  | CColumns _ => KColumns | CInsert _ _ => KInsert | CInsertOrReplace _ => KInsert
+  | CHint _ => KHint | CModifier _ => KModifier | CFinal => KFinal | CSample _ _ => KSample
+  | CLimitBy _ _ _ => KLimitBy | CDistinctOn _ => KDistinctOn
   end.
 
 (* ---- from_ / into / update ----------------------------------------------------------------- *)
@@ -558,6 +613,17 @@ Definition step (s : qstate) (c : call) : res qstate :=
       | None => Err "AttributeError"
       | Some _ => Ok (set_replace rep (set_values (q_values s ++ rows) s))
       end
+  | CInsertOrReplace rows =>
+      match q_insert_table s with
+      | None => Err "AttributeError"
+      | Some _ => Ok (set_insert_or_replace true (set_replace true (set_values (q_values s ++ rows) s)))
+      end
+  | CHint label => Ok (set_hint (Some label) s)
+  | CModifier v => Ok (set_modifiers (q_modifiers s ++ [v]) s)
+  | CFinal => Ok (set_final true s)
+  | CSample n off => Ok (set_sample_offset off (set_sample (Some n) s))
+  | CLimitBy n off by_ => Ok (set_limit_by (Some (n, off, map (col_item_term None) by_)) s)
+  | CDistinctOn fields => Ok (set_distinct_on (q_distinct_on s ++ map (col_item_term None) fields) s)
   end.
 
 Fixpoint run (s : qstate) (l : list call) : res qstate :=
@@ -588,7 +654,13 @@ Definition writes (k : kind) : list slot :=
   | KUseIndex => [S_use_indexes]
   | KSet => [S_updates]
   | KColumns => [S_columns]
-  | KInsert => [S_values; S_replace]
+  | KInsert => [S_values; S_replace; S_insert_or_replace]
+  | KHint => [S_hint]
+  | KModifier => [S_modifiers]
+  | KFinal => [S_final]
+  | KSample => [S_sample; S_sample_offset]
+  | KLimitBy => [S_limit_by]
+  | KDistinctOn => [S_distinct_on]
   end.
 (* reads (beyond the old value of the written slots) *)
 Definition reads (k : kind) : list slot :=
@@ -662,7 +734,7 @@ Definition acc_use (w : list string) (c : call) : list string :=
 Definition acc_updates (w : list (term * term)) (c : call) : list (term * term) :=
   match c with CSet f v => w ++ [(f, v)] | _ => w end.
 Definition acc_values (w : list (list term)) (c : call) : list (list term) :=
-  match c with CInsert _ rows => w ++ rows | _ => w end.
+  match c with CInsert _ rows => w ++ rows | CInsertOrReplace rows => w ++ rows | _ => w end.
 (* orderby / groupby by explicit terms or by name against the fixed first FROM item *)
 Definition acc_orderbys (fr : list tbl) (w : list (term * option string)) (c : call) : list (term * option string) :=
   match c with
